@@ -469,6 +469,27 @@ func runC09(c *eng.Ctx) {
 		}
 	})
 
+	// ---- memory is read before the snapshot is taken (entries only move memory -> kv store) -------------------------------------
+	c.Rule("ORDER", "index{memory<snapshot in posting readers}", func() {
+		for _, r := range []struct{ fn, mem string }{
+			{"index.invertedIndex.getSeriesIDs", "index.invertedIndex.findSeriesIDsByKeyFromMem"},
+			{"index.invertedIndex.findSeriesIDsByKeys", "index.invertedIndex.findSeriesIDsByKeyFromMem"},
+			{"index.forwardIndex.findSeriesIDsForTag", "index.forwardIndex.loadSeriesIDsInMem"},
+		} {
+			f := c.Fn(r.fn)
+			snap := c.One(f, invokeOn(".family", "GetSnapshot"), "family.GetSnapshot()")
+			mem := c.Some(f, eng.CallTo(r.mem), "memory read")
+			for i, m := range mem {
+				_, late := eng.Reaches(f, snap.Instr, []eng.Site{m}, nil)
+				c.Check(!late, fmt.Sprintf("%s:memory-before-snapshot[%d]", r.fn, i), m.Instr, f,
+					"the memory stores are read before the snapshot is taken: a flush moves entries from memory into a NEWER snapshot, so the other order can miss them (createSeriesID would then reuse a series id)",
+					"a memory read is reachable after GetSnapshot()")
+			}
+			_, before := eng.Reaches(f, mem[0].Instr, []eng.Site{snap}, nil)
+			c.Check(before, r.fn+":memory-read-precedes-snapshot", snap.Instr, f, "the memory read is followed by the snapshot acquisition (both parts exist, in that order)", "")
+		}
+	})
+
 	// ---- counter file layout ---------------------------------------------------------------------------------------
 	c.Rule("LAYOUT", seqT+"{Sync<->NewSequence}", func() {
 		w := c.Fn(seqT + ".Sync")
@@ -510,8 +531,8 @@ func runC09(c *eng.Ctx) {
 	// ---- 11. F8: no data file ahead of the counters/dictionaries of its IDs (shared with C07) ----------------
 	freezeOrderRule(c)
 
-	c.Observe("index readers (invertedIndex.getSeriesIDs/findSeriesIDsByKeys, forwardIndex.findSeriesIDsForTag/GetGroupingContext) take the family snapshot before reading the memory stores; " +
-		"a flush completing in between hides the just-flushed entries from that one read (createSeriesID falls back to it only on a sequenceCache miss) — noticed, not armed")
+	c.Observe("forwardIndex.GetGroupingContext and the indexKVStore value readers (like/regexp/suggest/collect) still take their snapshot before reading the memory stores; a flush completing in between hides " +
+		"just-flushed entries from that one query — queries concurrent with a flush are outside C10's quantifier and these paths are not on the ID-assignment path of C09, so this is noticed, not armed (the posting readers on the C09 path were fixed, F9)")
 	c.Observe("createSeriesID returns 0 when reading the posting list fails — noticed, not armed")
 }
 
